@@ -822,6 +822,52 @@ def c19(res, tier, seed, lib):
                     res.check(rc == 1 and cls == want, "picker-failure-is-a-pastel-error", "cli:colorpicker", "%s %r" % (name, cmd), "rc=%s class=%s msg=%r" % (rc, cls, msg))
     finally:
         shutil.rmtree(d, ignore_errors=True)
+    # every tool of the picker table (read from the source on each run) x reply shapes
+    import re as _re
+    src = open("/repo/src/cli/colorpicker_tools.rs").read()
+    tools = []
+    for blk in src.split("ColorPickerTool {")[1:]:
+        mc = _re.search(r'command:\s*"([^"]+)"', blk)
+        mv = _re.search(r'version_args:\s*&\[([^\]]*)\]', blk, _re.S)
+        mp = _re.search(r'version_output_starts_with:\s*b"([^"]*)"', blk)
+        if not (mc and mv and mp) or "osascript" in mc.group(1):
+            continue
+        vargs = _re.findall(r'"((?:[^"\\]|\\.)*)"', mv.group(1))
+        tools.append((mc.group(1), vargs, mp.group(1), "post_process: Some" in blk))
+    res.d["notes"].append("picker tools read from the source: %s" % ", ".join(t[0] for t in tools))
+    plain = [("valid", "#10aa20", 0), ("garbage", "zzz", 1), ("empty", "", 1), ("two-lines", "red\nblue", 1), ("spaces", "   #fff   ", 0)]
+    gd = [("valid", "({'color': <(0.5, 0.25, 0.125)>},)", 0), ("two-components", "({'color': <(0.5, 0.25)>},)", 1),
+          ("one-component", "({'color': <(0.5)>},)", 1), ("trailing-comma", "({'color': <(0.5,)>},)", 1),
+          ("four-components", "({'color': <(0.5, 0.25, 0.1, 1.0)>},)", 1), ("no-components", "({'color': <()>},)", 1),
+          ("one-paren", "(", 1), ("two-parens", "((", 1), ("garbage", "garbage", 1), ("empty", "", 1),
+          ("nan", "({'color': <(nan, inf, -1)>},)", None), ("huge", "({'color': <(1e308, 1e308, 1e308)>},)", None),
+          ("words", "({'color': <(a, b, c)>},)", 1), ("five", "((1,2,3,4,5", 1), ("exact-3-no-close", "((0.1,0.2,0.3", 0)]
+    d = tempfile.mkdtemp(prefix="pv-picker-", dir=BUILD)
+    try:
+        for (name, vargs, prefix, post) in tools:
+            for (label, reply, want_rc) in (gd if post else plain):
+                for f in os.listdir(d):
+                    os.unlink(os.path.join(d, f))
+                path = os.path.join(d, name)
+                with open(d + "/reply.txt", "w") as fh:
+                    fh.write(reply + "\n")
+                with open(path, "w") as fh:
+                    fh.write("#!/bin/sh\nif [ \"$*\" = \"%s\" ]; then echo '%s 1.0'; exit 0; fi\ncat %s/reply.txt\n" % (" ".join(vargs), prefix, d))
+                os.chmod(path, 0o755)
+                env = {"PATH": d + ":/usr/bin:/bin"}
+                for cmd in [["--color-picker", name, "pick"], ["format", "hex", "pick"]]:
+                    inp = "picker %s reply %s %r: %r" % (name, label, reply, cmd)
+                    res.case(inp)
+                    try:
+                        rc, out, err = run_cli(cmd, env=env, timeout=10)
+                    except subprocess.TimeoutExpired:
+                        res.fail("terminates", "cli:colorpicker", inp, "no exit within 10 s")
+                        continue
+                    generic_oracle(res, cmd + ["<picker %s:%s>" % (name, label)], rc, out, err, allow_partial_line=True)
+                    # (replies whose numbers Rust parses as NaN/inf may be accepted or rejected: only the exit-status rule applies)
+                    res.check(want_rc is None or rc == want_rc, "picker-reply-handled", "cli:colorpicker", inp, "rc=%s stderr=%r" % (rc, err[-160:]))
+    finally:
+        shutil.rmtree(d, ignore_errors=True)
 
 
 # ------------------------------------------------------------------------------------------ C08
@@ -940,6 +986,25 @@ def c06(res, tier, seed, lib):
             import struct
             ops.append("set %s %s %s" % (p, struct.pack(">d", float(v)).hex(), inf[ci].wire))
             meta.append((inp, out))
+    # "replaces exactly the named coordinate": for alpha and the three HSL coordinates the printed
+    # hue / saturation / lightness of the other coordinates are textually those of the input
+    # (inputs written as hsl() with one decimal, i.e. not on the 8-bit grid)
+    import re
+    pat = re.compile(rb"hsla?\(([0-9.]+),([0-9.]+)%,([0-9.]+)%(?:,([0-9.]+))?\)")
+    for p, keep in (("alpha", (0, 1, 2)), ("hsl-hue", (1, 2)), ("hsl-saturation", (0, 2)), ("hsl-lightness", (0, 1))):
+        for _ in range(5 if tier != "thorough" else 60):
+            ctext = "hsl(%d,%.1f%%,%.1f%%)" % (rnd.randrange(360), rnd.uniform(3, 100), rnd.uniform(3, 97))
+            v = rnd.uniform(0, 359) if p == "hsl-hue" else round(rnd.uniform(0.01, 0.99), 3)
+            rc0, out0, _ = run_cli(["color", ctext])
+            rc, out, err = run_cli(["set", p, repr(v), ctext])
+            inp = "set %s %r '%s'" % (p, v, ctext)
+            res.case(inp)
+            m0, m1 = pat.match(out0.strip()), pat.match(out.strip())
+            if not (rc == 0 and rc0 == 0 and m0 and m1):
+                res.fail("set-output-is-hsl-line", "cli:set", inp, "%r / %r" % (out0[:80], out[:80]))
+                continue
+            same = all(m0.group(i + 1) == m1.group(i + 1) for i in keep)
+            res.check(same, "set-keeps-other-coordinates", "cli:set", inp, "input prints %r, result prints %r" % (out0.strip(), out.strip()))
     fm = model_batch(ops)
     # the model answers with a wire colour; print it through the model's hsl formatter
     fops = []
